@@ -9,6 +9,7 @@ import_repo()
 from gemclus.sparse import _prox_grad as P  # noqa: E402
 
 QUICK_SCALE = 2  # quick budgets below are multiplied by this (kept at about half a minute on 8 processes)
+THOROUGH_SCALE = 1.5  # thorough budgets below are multiplied by this (about ten minutes on 16 processes)
 
 RULE = ("matrices d,h in [1,6] with entries drawn from {small integers (ties), exact zeros, floats in [-10,10], "
         "floats of magnitude 1e-100..1e-6 (squares do not underflow)}; alpha in {0, small, about a row norm, exactly a row norm, large}; M in {0,0.1,1,10,100}; "
